@@ -388,10 +388,15 @@ void iter_test() {
   const int U = (int)opt("updaters", 0), m = (int)opt("m", 1), Rd = (int)opt("readers", 0);
   const int prefill = (int)opt("prefill", -1) >= 0 ? (int)opt("prefill", 0) : choose(1 << nkeys);
   static int uops[MAXT][8], ukeys[MAXT][8];
+  // --opt uemplace=1: updaters only insert; --opt ukeymask=<bits>: updaters only use these keys (targeted families, e.g. "the insertion that makes the map grow")
+  const int uemplace = (int)opt("uemplace", 0), ukeymask = (int)opt("ukeymask", 0);
+  int ukeylist[NKEYS], nuk = 0;
+  for (int k = 0; k < nkeys; k++)
+    if (!ukeymask || (ukeymask & (1 << k))) ukeylist[nuk++] = k;
   for (int t = 0; t < U; t++)
     for (int i = 0; i < m; i++) {
-      uops[t][i] = choose(2) ? O_ERASE : O_EMPLACE;
-      ukeys[t][i] = choose(nkeys);
+      uops[t][i] = uemplace ? O_EMPLACE : choose(2) ? O_ERASE : O_EMPLACE;
+      ukeys[t][i] = ukeylist[nuk > 1 ? choose(nuk) : 0];
     }
   static int rkeys[MAXT][8];
   for (int t = 0; t < Rd; t++)
@@ -444,6 +449,9 @@ void iter_test() {
           // find() locks the bucket of k before the result is move-assigned onto `it`: legal while positioned only
           // if k lives in another bucket.  The move-assignment has to release the bucket `it` held so far.
           if (positioned && M::bucket_of(k) == M::bucket_of(cur_key)) prune();
+          // taking a second bucket while holding one is only deadlock-free in the order in which ++ and grow() take them; with updaters that can make the
+          // map grow (fewer than 128 buckets: no extension items) a find() from a held bucket is a lock-order inversion of the client, not a defect
+          if (positioned && U > 0 && cap < 128) prune();
           op_begin(positioned ? O_IT_MOVE_ASSIGN : O_IT_FIND, k, 0, false);
           it = map.find(M::key(k));
           positioned = it != map.end();
